@@ -113,6 +113,7 @@ class Summary(object):
         self.fields = {}      # scalar member -> exit value
         self.ret = None
         self.returned = False
+        self.events = []
 
 
 class Eval(object):
@@ -129,6 +130,10 @@ class Eval(object):
         # when set, two syntactically different index values denote different cells (used for linked-list nodes: a node is never its
         # own predecessor / successor -- the structural invariant whose preservation over histories is the stated residue of C10)
         self.distinct_indices = False
+        # optional: primitive(callee Fn, object expression text, argument values) -> True to record the call as an event instead of
+        # interpreting it (bit-array operations, whole sub-procedures checked elsewhere)
+        self.primitive = None
+        self.events = []
 
     def run(self, fn, args):
         env = {}
@@ -142,6 +147,7 @@ class Eval(object):
             s.returned = True
         s.stores = self.stores
         s.fields = self.fields
+        s.events = self.events
         return s
 
     def run_ctor(self, fn, args):
@@ -460,6 +466,14 @@ class Eval(object):
                 return v
             if g is not None and g.qn in ('ffsm2::move', 'ffsm2::forward') and e.get('args'):
                 return self.ev(e['args'][0], fn, env)
+            if g is not None and self.primitive is not None:
+                try:
+                    pargs = [self.ev(a, fn, env) for a in e.get('args', [])]
+                except Refuse:
+                    pargs = None
+                if pargs is not None and self.primitive(g, ir.pp(ir.strip(e['obj'])) if ir.is_expr(e.get('obj')) else '', pargs):
+                    self.events.append((g.short, ir.pp(ir.strip(e['obj'])) if ir.is_expr(e.get('obj')) else '', tuple(pargs)))
+                    return Opaque(('result', g.short, tuple(pargs)))
             if g is None or g.body is None or self.depth > 6:
                 raise Refuse('call to %s' % (e.get('name') or e.get('m')))
             sub = self
